@@ -54,9 +54,9 @@ func fieldOfParamName(v ssa.Value) (int, string, bool) {
 }
 
 func C05(p *load.Prog, r *oblig.Run) {
-	r.Explanation = "Structural clauses only (E6 path rules + shape rules). R05.a/b: every feasible path through Date.Time is enumerated with the facts its branch tests establish about Day, Month, Year, IsEndOfRange and the zero-time test; " +
+	r.Explanation = "Structural clauses only (E6 path rules + shape rules). R05.a/b: every feasible path through Date.Time is enumerated with the facts its branch tests establish about Day, Month, Year, IsEndOfRange and whether the text could be parsed (the parser's ok flag, or a zero-time test); " +
 		"the calendar text built on the path must be the documented one for exactly that combination of known components (full date: day month year; month and year: day 1 of the month; year only: 1 January; nothing otherwise) and the roll-forward applied " +
-		"to an end-of-range date must add exactly one unit of the finest known component (AddDate(0,0,1) / (0,1,0) / (1,0,0)) followed by minus one nanosecond, and nothing for a start bound or a zero time. " +
+		"to an end-of-range date must add exactly one unit of the finest known component (AddDate(0,0,1) / (0,1,0) / (1,0,0)) followed by minus one nanosecond, and nothing for a start bound or a text that is not a date. " +
 		"R05.c: IsBefore/IsAfter compare Years() of the receiver and the argument with < and >, DateRange.IsBefore/IsAfter compare the two starts / the two ends, DateNodes.Minimum/Maximum compare StartDate/EndDate Years with < and >."
 	r.NotDecided = "everything numerical: that time.Parse/AddDate give the calendar's true period for all 3,652,059 days, leap years, strict monotonicity of Years() from each day to the next, containment of the fractional year in its period. These are value universals over the calendar; enumerating the days would be execution, not static analysis."
 	r.Assumptions = []string{"time.Time.AddDate, Add and time.Parse behave as documented", "branch tests on date components are comparisons with zero"}
@@ -86,6 +86,7 @@ func C05(p *load.Prog, r *oblig.Run) {
 			pred[path[i]] = path[i-1]
 		}
 		infeasible, unknown := false, ""
+		zeroByValue := false // "not a date" is recognised by the parsed time being the zero time
 		set := func(k, v string) {
 			if old, ok := facts[k]; ok && old != v {
 				infeasible = true
@@ -150,10 +151,22 @@ func C05(p *load.Prog, r *oblig.Run) {
 				}
 			case *ssa.Call:
 				if cal := c.Call.StaticCallee(); cal != nil && cal.Name() == "IsZero" {
+					zeroByValue = true
 					if outcome {
 						set("zerotime", "t")
 					} else {
 						set("zerotime", "f")
+					}
+				} else {
+					unknown = "a branch on " + c.String()
+				}
+			case *ssa.Extract:
+				// the "could parse" flag returned next to the parsed time
+				if c2, isCall := c.Tuple.(*ssa.Call); isCall && c.Index == 1 && c2.Call.StaticCallee() != nil && c2.Call.Signature().Results().Len() == 2 {
+					if outcome {
+						set("zerotime", "f")
+					} else {
+						set("zerotime", "t")
 					}
 				} else {
 					unknown = "a branch on " + c.String()
@@ -190,6 +203,11 @@ func C05(p *load.Prog, r *oblig.Run) {
 		cur := canon(ret.Results[0])
 		var parsed *ssa.Call
 		for i := 0; i < 10; i++ {
+			if ex, isEx := cur.(*ssa.Extract); isEx && ex.Index == 0 {
+				if c0, isCall := ex.Tuple.(*ssa.Call); isCall {
+					cur = c0 // (time, ok) := parse(...)
+				}
+			}
 			c, ok := cur.(*ssa.Call)
 			if !ok {
 				break
@@ -346,6 +364,8 @@ func C05(p *load.Prog, r *oblig.Run) {
 			switch {
 			case unknown != "":
 				o.Unknown(unknown)
+			case zeroByValue && E == "t" && Z == "t" && Y != "0":
+				o.Fail("an end-of-range bound is left unadjusted whenever the parsed time IsZero(): 1 Jan 0001 00:00 UTC - the start of the valid dates '1 Jan 0001', 'Jan 0001' and '0001' - is Go's zero time, so the end of those three periods equals their start (the parser's own success flag must decide, not the value)")
 			case want == "?":
 				o.Fail("a path through Date.Time applies [" + got + "] without having tested what decides the adjustment (facts on the path: " + kb + ")")
 			case got != want:
@@ -411,6 +431,8 @@ func describeDateExpr(v ssa.Value, d int) string {
 		if cal := x.Call.StaticCallee(); cal != nil && len(x.Call.Args) >= 1 {
 			return cal.Name() + "(" + describeDateExpr(x.Call.Args[0], d+1) + ")"
 		}
+	case *ssa.Extract:
+		return fmt.Sprintf("%s#%d", describeDateExpr(x.Tuple, d+1), x.Index)
 	case *ssa.Phi:
 		return "phi"
 	}
@@ -490,11 +512,61 @@ func c05Order(p *load.Prog, r *oblig.Run) {
 				}
 			}
 		}
+		if found == 0 {
+			// cached form: Years(acc(element)) op key, where key is a loop variable holding the current candidate's
+			// value. The key must be replaced exactly when the candidate is.
+			var elemPhi *ssa.Phi // loop variable of the result type
+			for _, h := range loopHeaders(fn) {
+				for _, ins := range h.Instrs {
+					if ph, ok := ins.(*ssa.Phi); ok && types.Identical(ph.Type(), fn.Signature.Results().At(0).Type()) {
+						elemPhi = ph
+					}
+				}
+			}
+			for _, b := range fn.Blocks {
+				for _, ins := range b.Instrs {
+					bo, ok := ins.(*ssa.BinOp)
+					if !ok {
+						continue
+					}
+					a, ok1 := yearsOf(bo.X)
+					keyPhi, ok2 := bo.Y.(*ssa.Phi)
+					if !ok1 || !ok2 || elemPhi == nil || keyPhi.Block() != elemPhi.Block() {
+						continue
+					}
+					found++
+					if bo.Op != mm.op || a != mm.acc+"(p0[i])" {
+						bad = fmt.Sprintf("Years(%s) %s cached key", a, bo.Op)
+						continue
+					}
+					// back-edge values of the two loop variables must change together
+					for i, pr := range elemPhi.Block().Preds {
+						if !elemPhi.Block().Dominates(pr) {
+							continue
+						}
+						ev, kv := elemPhi.Edges[i], keyPhi.Edges[i]
+						ep, isEP := ev.(*ssa.Phi)
+						kp, isKP := kv.(*ssa.Phi)
+						switch {
+						case isEP && isKP && ep.Block() == kp.Block():
+							for j := range ep.Edges {
+								if (ep.Edges[j] == ssa.Value(elemPhi)) != (kp.Edges[j] == ssa.Value(keyPhi)) {
+									bad = "the cached key and the candidate are not replaced on the same paths"
+								}
+							}
+						case ev == ssa.Value(elemPhi) && kv == ssa.Value(keyPhi):
+						default:
+							bad = "the cached key is replaced on paths on which the candidate is kept (or the reverse)"
+						}
+					}
+				}
+			}
+		}
 		switch {
 		case found == 0:
 			o.Unknown("no comparison of two Years() values found")
 		case bad != "":
-			o.Fail(fmt.Sprintf("DateNodes.%s replaces the current candidate when %s; it must be Years(%s(element)) %s Years(%s(current))", mm.name, bad, mm.acc, mm.op, mm.acc))
+			o.Fail(fmt.Sprintf("DateNodes.%s: %s; the candidate must be replaced exactly when Years(%s(element)) %s Years(%s(current)) (a key that follows the previous element instead of the current candidate compares each date with its predecessor)", mm.name, bad, mm.acc, mm.op, mm.acc))
 		default:
 			o.OK(fmt.Sprintf("Years(%s(element)) %s Years(%s(current))", mm.acc, mm.op, mm.acc))
 		}
